@@ -280,8 +280,11 @@ def check_outcome(ins, k, payload, o, iargs):
             out.append(("or-present", T, "`(x) or y` with x present must keep exactly x"))
             return out
         kind, pv = K.decode_prim(o.cells, st[0])
-        if kind != k:
-            out.append(("or-present", T, "`(x) or y` changes the kept value's shape"))
+        # `(x) or y` yields the present VALUE: the payload itself, or an unwrapped view of it - never the Optional(Some(..)) wrapper
+        # a built-in put around it (the first version of this obligation demanded that the operand be kept as it was; that is more
+        # than the property states and it held the defect repaired in /repo: `("12".parse_int()) or 0` + 1 failed on <Optional + Int>)
+        if kind != base and not (kind == k and "Some" not in k):
+            out.append(("or-present", T, "`(x) or y` does not yield the present value (it keeps a %s)" % kind))
         else:
             out.append(("or-present", pv.e != payload.e, "`(x) or y` changes the kept value"))
         if len(sig) != 1 or not is_goto(sig[0], 3):
